@@ -370,6 +370,11 @@ pub fn c04(sc: &Scenario, rr: &RunResult) -> Vec<Violation> {
             ));
             return out;
         }
+        Verdict::Budget if rr.outcome.progress_since_last_window => {
+            // still delivering batches when the budget ran out: a long run, not a verdict
+            // (counted as "runs_out_of_budget" in the evidence)
+            return out;
+        }
         Verdict::Budget => {
             out.push(viol(
                 "C04",
@@ -509,6 +514,12 @@ pub fn c05(sc: &Scenario, rr: &RunResult) -> Vec<Violation> {
 // ------------------------------------------------------------------------------------------
 
 pub fn check(prop: &str, sc: &Scenario, rr: &RunResult) -> Vec<Violation> {
+    let mut v = check_inner(prop, sc, rr);
+    v.retain(|x| !x.class.ends_with("__inconclusive"));
+    v
+}
+
+fn check_inner(prop: &str, sc: &Scenario, rr: &RunResult) -> Vec<Violation> {
     match prop {
         "C01" => c01(sc, rr),
         "C02" => c02(sc, rr),
@@ -659,10 +670,16 @@ fn termination_as(prop: &str, sc: &Scenario, rr: &RunResult) -> Vec<Violation> {
     if rr.outcome.verdict == Verdict::Completed && !rr.rec.hosts.iter().any(|h| h.panicked.is_some()) {
         return vec![];
     }
-    c04(sc, rr)
+    let v: Vec<Violation> = c04(sc, rr)
         .into_iter()
         .map(|v| viol(prop, &format!("no-termination-{}", v.class.trim_start_matches("C04/")), v.msg))
-        .collect()
+        .collect();
+    if v.is_empty() {
+        // out of budget while still making progress: nothing can be said about this run
+        // (the marker stops the caller and is removed by `check`)
+        return vec![viol(prop, "__inconclusive", String::new())];
+    }
+    v
 }
 
 pub fn c10(sc: &Scenario, rr: &RunResult) -> Vec<Violation> {
